@@ -45,6 +45,8 @@ func goType(tpe, format string) (reflect.Type, bool) {
 			return reflect.TypeOf(strfmt.Password("")), true
 		case "ipv4":
 			return reflect.TypeOf(strfmt.IPv4("")), true
+		case "x-color":
+			return reflect.TypeOf(hexColor("")), true
 		case "", "x-unregistered":
 			return reflect.TypeOf(""), true
 		}
@@ -86,7 +88,7 @@ func kindStringFormat(tpe, format string) bool {
 		return false
 	}
 	switch format {
-	case "uuid", "email", "password", "ipv4":
+	case "uuid", "email", "password", "ipv4", "x-color":
 		return true
 	}
 	return false
@@ -278,6 +280,11 @@ func stringLiteral(format, text string) lit {
 		return mustErr()
 	case "password":
 		return mustVal(strfmt.Password(text))
+	case "x-color":
+		if reHexColor.MatchString(text) {
+			return mustVal(hexColor(strings.ToLower(text)))
+		}
+		return mustErr()
 	}
 	return lit{errOK: true, any: true}
 }
@@ -303,7 +310,7 @@ func zeroExpects(tpe, format string) []expect {
 
 // zeroInvalid: the zero value of the Go type is not a valid literal of the declared format.
 func zeroInvalid(tpe, format string) bool {
-	return tpe == "string" && (format == "uuid" || format == "email" || format == "ipv4")
+	return tpe == "string" && (format == "uuid" || format == "email" || format == "ipv4" || format == "x-color")
 }
 
 func zeroLit(tpe, format string) lit {
